@@ -115,6 +115,10 @@ def run_mode(mode, chk):
         f.update(resumption=True, server_authed=True, client_authed=ca)
         L = _run_cert(ver, False, chk, csess=sess, cache=cache, tickets=tickets)
         f["orig_server_failed"] = L0.server.state != "done"
+        if ver < 4 and any(t == 22 and body[:1] == b"\x0b" for (t, v, body) in L.link.records("s2c")):
+            # the server sent a Certificate message: it declined the resumption and ran a full handshake
+            # (seen on the wire, not taken from connection.resumed)
+            f.update(resumption=False, server_authed=True, client_authed=False, fallback=True)
         return L, f
     if mode == "srp12":
         cs, ss = _settings(3), _settings(3)
@@ -149,7 +153,7 @@ def run_mode(mode, chk):
 
 MODES = ["cert12", "cert13", "cert12-noclient", "cert13-noclient", "extpsk-dhe", "extpsk-ke",
          "ticket13-auth", "ticket13-noclient", "ticket13-failedcheck",
-         "sessid12-auth", "sessid12-noclient", "ticket12-auth", "ticket12-noclient", "ticket12-failedcheck",
+         "sessid12-auth", "sessid12-noclient", "sessid12-failedcheck", "ticket12-auth", "ticket12-noclient", "ticket12-failedcheck",
          "srp12", "anon12"]
 CHECKERS = [None] + [(side, pin, cr) for side in ("client", "server") for pin in ("ok", "bad") for cr in (False, True)]
 MODEL_MODE = {"cert12": "cert", "cert13": "cert", "extpsk": "extpsk", "ticket13": "ticket13", "sessid12": "sessid12",
@@ -226,6 +230,8 @@ def mode_case(ctx, case, pending):
                                   % (side, mode), rep)
             # model: resumed flag as the implementation reports it is compared separately; here the policy
             base = mode.split("-")[0]
+            if f.get("fallback"):
+                base = "cert12"
             chain_present = bool(se is not None and (se.serverCertChain if side == "client" else se.clientCertChain)) \
                 if se is not None else False
             line = "chk mode:%s client:%d chain:%d pin:%s cr:%d" % (
